@@ -80,6 +80,31 @@ def run(tier):
         else:
             p, _, script = gen.single_query(logic, rng, options=opts, n_assert=rng.randint(6, 14), after_check=after)
         cases.append({"idx": i, "logic": logic, "options": opts, "script": script})
+    # interpolation requests under every interpolation algorithm (the `random` EUF algorithm draws coins), on UF and arithmetic
+    import c08
+    for i in range(60 if tier == "quick" else 1200):
+        p8, script, queries = (c08.make_prop_script if i % 4 == 3 else (c08.make_euf_script if i % 4 in (0, 1) else c08.make_script))(i, chk.seed, 2, 3)
+        if i % 2 == 0 and "interpolation-euf-algorithm" not in script:
+            script = script.replace("(set-option :produce-interpolants true)", "(set-option :produce-interpolants true)\n(set-option :interpolation-euf-algorithm 3)", 1)
+        cases.append({"idx": f"itp{i}", "logic": p8.logic, "options": ["interpolation"], "script": script})
+    # error paths: the text of a diagnostic must not depend on where things lie in memory (long names live on the heap)
+    for i in range(40 if tier == "quick" else 800):
+        rng = random.Random(f"c23-err-{chk.seed}-{i}")
+        logic = LOGICS[i % len(LOGICS)]
+        p, _, script = gen.single_query(logic, rng, options=[":print-success true"], n_assert=rng.randint(2, 5))
+        ls = script.strip().split("\n")
+        long1 = "NoSuchSort_" + "".join(rng.choice("abcdefghijklmnopqrstuvwxyz0123456789") for _ in range(rng.randint(8, 40)))
+        long2 = "no_such_symbol_" + "".join(rng.choice("abcdefghijklmnopqrstuvwxyz") for _ in range(rng.randint(8, 60)))
+        bad = [f"(declare-fun e1 () {long1})", f"(declare-fun e2 ({long1} Bool) Bool)", f"(assert ({long2} true))", f"(assert (= {long2} {long2}))",
+               f"(declare-fun |{long2} with spaces| () {long1})", f"(define-fun d9 ((a {long1})) Bool true)", f"(assert (! true :named {long2}))",
+               f"(assert (! false :named {long2}))", f"(get-value ({long2}))", f"(set-option :{long2} true)", f"(set-logic {long1})",
+               f"(declare-sort {long1} 0)", f"(declare-sort {long1} 0)", f"(push 1)", f"(pop 7)", f"(get-info :{long2})"]
+        for _ in range(rng.randint(3, 8)):
+            ls.insert(rng.randint(3, len(ls)), rng.choice(bad))
+        cases.append({"idx": f"err{i}", "logic": logic, "options": ["error paths"], "script": "\n".join(ls) + "\n"})
+    cases.append({"idx": "time-queries", "logic": "QF_LRA", "options": [":time-queries true"],
+                  "script": "(set-option :time-queries true)\n(set-logic QF_LRA)\n(declare-fun x () Real)\n(declare-fun y () Real)\n"
+                            "(assert (or (< x y) (< y x)))\n(check-sat)\n(assert (= x y))\n(check-sat)\n"})
     with mp.Pool(min(common.JOBS, 14)) as pool:
         results = pool.map(run_case, [(c, binary) for c in cases], chunksize=4)
     nbytes = touts = 0
@@ -90,7 +115,8 @@ def run(tier):
         chk.obligation(not r["problems"])
         chk.cov["traces_validated_against_impl"] += 1
         for pr in r["problems"][:1]:
-            chk.violation("reproducibility", f"{pr['what']} ({r['logic']} {r['options']})", {"script": r["script"], "problem": pr})
+            chk.violation("reproducibility", f"{pr['what']} ({r['logic']} {r['options']})", {"script": r["script"], "problem": pr},
+                          match_key="time-queries" if ":time-queries true" in r["script"] and "query time so far" in pr["what"] else None)
     chk.assumptions = ["reproducibility of whole runs is compared on three runs per script, not proved; the proved part is the generator"]
     return chk.finish(rule="one case = one script x option vector, run three times (ASLR on, on, off); non-trivial = more than 20 bytes of output",
                       extra={"output_bytes_compared": nbytes, "timeouts": touts})
